@@ -289,6 +289,9 @@ fn run_sequence(fills: &[Fill], with_engine: bool, want_obs: bool) -> Result<Out
             "reduce"
         };
         out.kinds.push(kind);
+        if kind == "reduce" && led.net.abs() < Decimal::new(1, 8) {
+            out.env.push("reduce_leaves_sliver_below_1e-8".into());
+        }
         if want_obs {
             out.obs.push(json!({"exit": exit.as_ref().map(exit_json), "cur": pm.current.as_ref().map(pos_json)}));
         }
@@ -335,8 +338,10 @@ fn run_sequence(fills: &[Fill], with_engine: bool, want_obs: bool) -> Result<Out
         if kind == "flip" {
             let closed_q = prev_net.abs();
             let rem_q = led.net.abs();
-            let fee_exit = fee * closed_q / q;
-            let fee_enter = fee * rem_q / q;
+            // pro rata by quantity; the ratio (<= 1) is formed first: `fee * closed_q` can fall below Decimal's 28
+            // decimal places and dividing the rounded product by a tiny `q` would blow that rounding up
+            let fee_exit = fee * (closed_q / q);
+            let fee_enter = fee * (rem_q / q);
             let closing_cash = led.pos_cash + (if f.buy { -(p * closed_q) } else { p * closed_q }) - fee_exit;
             let ex = exit.as_ref().unwrap();
             out.checks += 3;
@@ -485,6 +490,14 @@ fn gen_sequence(rng: &mut Rng, next_id: &mut u32) -> Vec<Fill> {
                 if !half.is_zero() && half < net.abs() {
                     q = half;
                 }
+            } else if r < 6 {
+                // near-total reduce: a sliver of the position stays open (down to 1e-12; a position is open until
+                // its net quantity is exactly zero, however small the remainder)
+                let sliver = Decimal::new(*rng.pick(&[1i64, 5, 1, 1, 1]), *rng.pick(&[9u32, 9, 12, 8, 6]));
+                if net.abs() > sliver {
+                    buy = net.is_sign_negative();
+                    q = net.abs() - sliver;
+                }
             }
         }
         let fee = match fee_mode {
@@ -593,7 +606,7 @@ fn main() {
     });
     log.flush();
     if args.tier != "miri" {
-        for c in ["open", "increase", "reduce", "close", "flip", "flip->reduce", "reduce->increase", "flip->flip", "zero_fee", "nonzero_fee", "negative_fee_(rebate)", "engine_path", "close->open",
+        for c in ["open", "increase", "reduce", "close", "flip", "flip->reduce", "reduce->increase", "flip->flip", "zero_fee", "nonzero_fee", "negative_fee_(rebate)", "reduce_leaves_sliver_below_1e-8", "engine_path", "close->open",
             "market:l1_without_levels:with_open_position", "market:liquidation:with_open_position", "market:candle:with_open_position", "market:public_trade:with_open_position",
             "strategy_issues_orders_on_the_tick_of_a_fill", "position_closed_on_a_tick_that_also_generated_orders", "position_closed_on_a_tick_whose_orders_could_not_be_delivered"] {
             report.require(c);
